@@ -17,10 +17,20 @@ Variable stop_at : option Z.
 Let run := parse F fzero fone fadd fsub fmul parse_f32 is_ws is_num n_attr stop_at.
 
 (* total: the loop fuel is never exhausted and no attribute index is out of range, i.e. the
-   outcome is success or one of the four ParseError kinds with a line and a column *)
-Theorem C17_parse_total : forall attr0 oracles text,
+   outcome is success or one of the four ParseError kinds with a line and a column.
+   Hypothesis on the external text->number conversion: the empty text is not a number (true of
+   Rust's "".parse::<f32>(); the correspondence run's instance satisfies it, see Run/C17.v).
+   Without it the statement is false of the model - Proofs/C17_Parser.v proves the refutation
+   [parse_total_counterexample]: with parse_f32 := fun _ => Some 0 the text "M!" exhausts the fuel
+   (an implicit command repeats without consuming input). *)
+Theorem C17_parse_total : parse_f32 [] = None -> forall attr0 oracles text,
   snd (run attr0 oracles text) <> Some EFuel /\ snd (run attr0 oracles text) <> Some EPanic.
-Proof. exact (parse_total F fzero fone fadd fsub fmul parse_f32 is_ws is_num n_attr stop_at). Qed.
+Proof. exact (parse_total_partial F fzero fone fadd fsub fmul parse_f32 is_ws is_num n_attr stop_at). Qed.
+
+(* no attribute index is ever out of range, whatever the conversion *)
+Theorem C17_parse_no_panic : forall attr0 oracles text,
+  snd (run attr0 oracles text) <> Some EPanic.
+Proof. exact (parse_no_panic F fzero fone fadd fsub fmul parse_f32 is_ws is_num n_attr stop_at). Qed.
 
 (* in both cases the output builder has been driven with properly nested, closed calls *)
 Theorem C17_parse_protocol : forall attr0 oracles text,
@@ -61,6 +71,7 @@ Example C17_example_total :
 Proof. vm_compute. eexists; reflexivity. Qed.
 
 Print Assumptions C17_parse_total.
+Print Assumptions C17_parse_no_panic.
 Print Assumptions C17_parse_protocol.
 Print Assumptions C17_must_start_with_moveto.
 Print Assumptions C17_buffer_independent.
